@@ -900,3 +900,268 @@ def gen_eval(lib_dir: str, header: str) -> str:
     out += "    match stack.getLast? with\n    | some v => .val v\n    | none => .pyExc .indexError\n\n"
     out += "end Dltype.Gen\n"
     return out
+
+
+# =====================================================================================================================
+# the wrapper of `dltyped`  ->  Generated/Wrapper.lean
+# =====================================================================================================================
+#
+# State threaded through the statements: σ (ctx.tensor_shape_map), registered (keys of ctx.registered_tensor_dtypes),
+# queue (ctx._hinted_tensors), calls (how often the wrapped function was invoked), checked (an `assert_context` had
+# completed when it was invoked).  A call through the wrapper ends in a `CallTrace`.
+# Leaf expressions are read through a table (`LEAVES`): the objects of the wrapper (the provider argument, the bound
+# arguments, the resolved hints) are the abstract `Provider`, `args`, `allHints d` of the model.
+
+LEAVES = {
+    "scope_provider == 'self'": "prov.isSelf",
+    "isinstance(actual_args[str(scope_provider)], DLTypeScopeProvider)": "prov.selfImplements",
+    "scope_provider is not None": "prov.given",
+    "isinstance(scope_provider, DLTypeScopeProvider)": "prov.objImplements",
+    "name == return_key": "decide (name = kwReturn)",
+    "name in {'self', 'cls'}": "(decide (name = kwSelf) || decide (name = kwCls))",
+}
+SCOPES = {
+    "dict(actual_args[str(scope_provider)].get_dltype_scope())": "prov.selfScope",
+    "dict(scope_provider.get_dltype_scope())": "prov.objScope",
+}
+
+WRAP_HEADER = """/-- the resolved hints in the order of `typing.get_type_hints`: parameters, then `return` -/
+def retHints (d : FuncDecl) : List (Name × HintAnns) :=
+  match d.ret with | some h => [(kwReturn, h)] | none => []
+
+def allHints (d : FuncDecl) : List (Name × HintAnns) := d.params ++ retHints d
+
+/-- `dltype_hints.get(name)` -/
+def lookupHint : List (Name × HintAnns) → Name → Option HintAnns
+  | [], _ => none
+  | (k, h) :: rest, n => if k = n then some h else lookupHint rest n
+
+def _root_.Dltype.Provider.isSelf : Provider → Bool | .self _ => true | _ => false
+def _root_.Dltype.Provider.given : Provider → Bool | .absent => false | _ => true
+def _root_.Dltype.Provider.selfImplements : Provider → Bool | .self (some _) => true | _ => false
+def _root_.Dltype.Provider.objImplements : Provider → Bool | .obj (some _) => true | _ => false
+def _root_.Dltype.Provider.selfScope : Provider → Scope | .self (some σ) => σ | _ => []
+def _root_.Dltype.Provider.objScope : Provider → Scope | .obj (some σ) => σ | _ => []
+
+/-- how a failed check ends the call (the `except DLTypeError as e: e.set_context(...); raise` handler re-raises the same error) -/
+def failEnd (calls : Nat) (checked : Bool) : Outcome CState → CallTrace
+  | .ok _ => { bodyCalls := calls, argsCheckedBeforeBody := checked, result := .unmodelled }
+  | .reject r => { bodyCalls := calls, argsCheckedBeforeBody := checked, result := .rejected r }
+  | .pyExc e => { bodyCalls := calls, argsCheckedBeforeBody := checked, result := .pyExc e }
+  | .unmodelled => { bodyCalls := calls, argsCheckedBeforeBody := checked, result := .unmodelled }
+
+def failAdd (calls : Nat) (checked : Bool) : Outcome (List Entry) → CallTrace
+  | .ok _ => { bodyCalls := calls, argsCheckedBeforeBody := checked, result := .unmodelled }
+  | .reject r => { bodyCalls := calls, argsCheckedBeforeBody := checked, result := .rejected r }
+  | .pyExc e => { bodyCalls := calls, argsCheckedBeforeBody := checked, result := .pyExc e }
+  | .unmodelled => { bodyCalls := calls, argsCheckedBeforeBody := checked, result := .unmodelled }
+
+"""
+
+HINT_SKELETON = """/-- loop skeleton (fixed text): `for name in dltype_hints` — the entries each iteration queues, in order -/
+def hintLoop (hints : List (Name × HintAnns)) (args : List (Name × Value)) : List (Name × HintAnns) → Outcome (List Entry)
+  | [] => .ok []
+  | (name, _) :: rest =>
+    match hintStep hints args name with
+    | .ok es =>
+      match hintLoop hints args rest with
+      | .ok es' => .ok (es ++ es')
+      | r => r
+    | r => r
+
+"""
+
+
+class WrapComp:
+    def end(self, result: str) -> str:
+        return f"{{ bodyCalls := calls, argsCheckedBeforeBody := checked, result := {result} }}"
+
+    def cond(self, e) -> str:
+        if isinstance(e, ast.BoolOp):
+            op = " && " if isinstance(e.op, ast.And) else " || "
+            return "(" + op.join(self.cond(v) for v in e.values) + ")"
+        if isinstance(e, ast.UnaryOp) and isinstance(e.op, ast.Not):
+            return f"(!{self.cond(e.operand)})"
+        t = LEAVES.get(_src(e))
+        if t is None:
+            raise TErr(f"wrapper: condition `{_src(e)}`")
+        return t
+
+    # ---- the loop over the hints: one iteration -> Outcome (List Entry) -------------------------------------------
+    def hint_block(self, stmts, i, ind) -> str:
+        if i == len(stmts):
+            return ".ok []"
+        s = stmts[i]
+        if isinstance(s, ast.Continue):
+            return ".ok []"
+        if isinstance(s, ast.Assign) and isinstance(s.value, (ast.Constant, ast.JoinedStr)):
+            return self.hint_block(stmts, i + 1, ind)
+        if isinstance(s, ast.Expr) and isinstance(s.value, ast.Call) and _src(s.value.func).startswith("_logger."):
+            return self.hint_block(stmts, i + 1, ind)
+        if isinstance(s, ast.Raise):
+            if _src(s.exc) in ("TypeError(msg)",):
+                return ".pyExc .typeError"
+            raise TErr(f"wrapper: raise `{_src(s.exc)}` in the loop over the hints")
+        if isinstance(s, ast.If) and isinstance(s.test, ast.NamedExpr):
+            # if maybe_annotation := dltype_hints.get(name):   (a tuple of annotations: true when it is not empty)
+            if _src(s.test.value) != "dltype_hints.get(name)":
+                raise TErr(f"wrapper: `{_src(s.test)}`")
+            x = s.test.target.id
+            b = self.hint_block(s.body, 0, ind + "    ", ann=x) if False else self.hint_body_with(s.body, x, ind + "    ")
+            o = self.hint_block(list(s.orelse) + stmts[i + 1:], 0, ind + "  ")
+            if not self.ends_add(s.body):
+                raise TErr("wrapper: the annotated branch of the loop does more than queue the value")
+            rest = self.hint_block(stmts[i + 1:], 0, ind + "  ")
+            if rest != ".ok []":
+                raise TErr("wrapper: statements after the annotated branch of the loop")
+            return (f"match lookupHint hints name with\n{ind}| none =>\n{ind}  {P(o)}\n{ind}| some {x} =>\n{ind}  (if !{x}.anns.isEmpty then\n{ind}    {P(b)}\n{ind}  else\n{ind}    {P(o)})")
+        if isinstance(s, ast.If):
+            c = self.cond(s.test)
+            b = self.hint_block(list(s.body) + ([] if self.ends(s.body) else stmts[i + 1:]), 0, ind + "  ")
+            o = self.hint_block(list(s.orelse) + stmts[i + 1:], 0, ind + "  ")
+            return f"if {c} then\n{ind}  {P(b)}\n{ind}else\n{ind}  {P(o)}"
+        raise TErr(f"wrapper: statement `{_src(s)[:100]}` in the loop over the hints")
+
+    @staticmethod
+    def ends(stmts) -> bool:
+        return bool(stmts) and isinstance(stmts[-1], (ast.Continue, ast.Raise, ast.Return))
+
+    @staticmethod
+    def ends_add(stmts) -> bool:
+        return bool(stmts) and isinstance(stmts[-1], ast.Expr) and _src(stmts[-1].value.func) == "ctx.add"
+
+    def hint_body_with(self, stmts, x, ind) -> str:
+        """tensor = actual_args[name]; ctx.add(name, _resolve_value(tensor, x), _resolve_types(x))"""
+        if not (len(stmts) == 2 and _src(stmts[0]) == "tensor = actual_args[name]"
+                and _src(stmts[1]) == f"ctx.add(name, _resolve_value(tensor, {x}), _resolve_types({x}))"):
+            raise TErr("wrapper: the annotated branch is not `tensor = actual_args[name]; ctx.add(name, _resolve_value(tensor, h), _resolve_types(h))`: "
+                       + "; ".join(_src(s) for s in stmts)[:160])
+        return f"match lookupArg args name with\n{ind}| none => .unmodelled\n{ind}| some tensor => addHinted name tensor {x}"
+
+    # ---- the statements after the loop: -> CallTrace ---------------------------------------------------------------
+    def main_block(self, stmts, i, ind, retvar=None) -> str:
+        if i == len(stmts):
+            raise TErr("wrapper: the function falls off its end")
+        s = stmts[i]
+
+        def rest(rv=retvar):
+            return self.main_block(stmts, i + 1, ind, rv)
+
+        if isinstance(s, ast.Expr) and _src(s.value) == "ctx.assert_context()":
+            return (f"match runEntries acc {{ σ := σ, registered := registered }} queue with\n{ind}| .ok st =>\n{ind}  (let σ := st.σ\n{ind}  let registered := st.registered\n"
+                    f"{ind}  let queue : List Entry := []\n{ind}  let checked := calls == 0 || checked\n{ind}  " + self.main_block(stmts, i + 1, ind + "  ", retvar) + f")\n{ind}| r => failEnd calls checked r")
+        if isinstance(s, ast.Assign) and len(s.targets) == 1 and isinstance(s.targets[0], ast.Name) and isinstance(s.value, ast.Call) and _src(s.value.func) == "func":
+            if _src(s.value) != "func(*args, **kwargs)":
+                raise TErr(f"wrapper: the wrapped function is called as `{_src(s.value)}`, not with exactly the caller's `*args, **kwargs`")
+            x = s.targets[0].id
+            return (f"let calls := calls + 1\n{ind}match body with\n{ind}| .raises => {self.end('.bodyRaised')}\n{ind}| .returns {x} =>\n{ind}  " + P(self.main_block(stmts, i + 1, ind + "  ", x)))
+        if isinstance(s, ast.If) and isinstance(s.test, ast.NamedExpr):
+            if _src(s.test.value) != "_resolve_types(dltype_hints.get(return_key))" or retvar is None:
+                raise TErr(f"wrapper: `{_src(s.test)}`")
+            x = s.test.target.id
+            b = list(s.body)
+            want = f"ctx.add(return_key, _resolve_value({retvar}, dltype_hints[return_key]), {x})"
+            if not (b and _src(b[0]) == want):
+                raise TErr(f"wrapper: the return branch does not start with `{want}`")
+            # the else branch may only warn
+            for o in s.orelse:
+                if not (isinstance(o, ast.If) and not o.orelse and all(isinstance(z, ast.Expr) and _src(z.value.func) == "warnings.warn" for z in o.body)):
+                    raise TErr(f"wrapper: the branch without a return hint does more than warn: `{_src(o)[:80]}`")
+            after = self.main_block(stmts, i + 1, ind + "    ", retvar)
+            inner = self.main_block(b[1:] + stmts[i + 1:], 0, ind + "    ", retvar)
+            return (f"match (lookupHint hints kwReturn).bind (fun h => (resolveTypes h.anns).map (fun as => (h.isTuple, as))) with\n{ind}| none =>\n{ind}  {P(after)}\n"
+                    f"{ind}| some (isTuple, as) =>\n{ind}  (match addReturn isTuple as {retvar} with\n{ind}  | .ok es =>\n{ind}    (let queue := queue ++ es\n{ind}    {inner})\n{ind}  | r => failAdd calls checked r)")
+        if isinstance(s, ast.Return):
+            if retvar is None or _src(s.value) != retvar:
+                raise TErr(f"wrapper: `{_src(s)}` does not hand back the value the wrapped function returned")
+            return self.end(f".returned {retvar}")
+        raise TErr(f"wrapper: statement `{_src(s)[:100]}`")
+
+
+def gen_wrapper(lib_dir: str, header: str) -> str:
+    with open(os.path.join(lib_dir, "_core.py")) as fh:
+        mod = ast.parse(fh.read(), filename="_core.py")
+    w = None
+    for n in ast.walk(mod):
+        if isinstance(n, ast.FunctionDef) and n.name == "dltyped":
+            for m in ast.walk(n):
+                if isinstance(m, ast.FunctionDef) and m.name == "wrapper":
+                    w = m
+    if w is None:
+        raise TErr("dltyped: inner function `wrapper` not found")
+    if _src(w.args) != "*args: P.args, **kwargs: P.kwargs":
+        raise TErr(f"wrapper: parameters `{_src(w.args)}`")
+    decs = [_src(x) for x in w.decorator_list]
+    if decs != ["wraps(func)", "_dependency_utilities.torch_jit_unused"]:
+        raise TErr(f"wrapper: decorators {decs} (expected functools.wraps(func) outermost: name, doc, signature and __wrapped__ of the original)")
+    body = [s for s in _strip(w.body) if not isinstance(s, ast.Nonlocal) and not (isinstance(s, ast.Assign) and _src(s.targets[0]) == "__tracebackhide__")]
+    # prologue: hint / signature resolution, the fallback that hands the call through, argument binding
+    expect = [
+        "dltype_hints = _maybe_get_type_hints(dltype_hints, func)",
+        "if signature is None:\n    signature = _maybe_get_signature(None, func)",
+    ]
+    for k, e in enumerate(expect):
+        if _src(body[k]) != e:
+            raise TErr(f"wrapper: statement {k}: `{_src(body[k])[:100]}`")
+    fb = body[2]
+    if not (isinstance(fb, ast.If) and _src(fb.test) == "signature is None or dltype_hints is None" and not fb.orelse and isinstance(fb.body[-1], ast.Return)
+            and _src(fb.body[-1].value) == "func(*args, **kwargs)" and all(isinstance(z, ast.Expr) and _src(z.value.func) == "warnings.warn" for z in fb.body[:-1])):
+        raise TErr("wrapper: the fallback for unresolvable hints is not `warn; return func(*args, **kwargs)`")
+    expect2 = ["bound_args = signature.bind(*args, **kwargs)", "bound_args.apply_defaults()", "actual_args = bound_args.arguments", "ctx = _dltype_context.DLTypeContext()"]
+    for k, e in enumerate(expect2):
+        if _src(body[3 + k]) != e:
+            raise TErr(f"wrapper: statement {3 + k}: `{_src(body[3 + k])[:100]}` (expected `{e}`)")
+    rest = body[7:]
+    if not (len(rest) == 4 and isinstance(rest[0], ast.If) and isinstance(rest[1], ast.For) and isinstance(rest[2], ast.Try) and isinstance(rest[3], ast.Return)):
+        raise TErr("wrapper: expected provider chain, loop over the hints, try block, return")
+    wc = WrapComp()
+    # provider chain -> a Lean `if` chain that sets σ or ends the call
+    chain = []
+    node = rest[0]
+    while True:
+        c = wc.cond(node.test)
+        b = [s for s in node.body if not (isinstance(s, ast.Expr) and isinstance(s.value, ast.Call) and _src(s.value.func).startswith("_logger."))]
+        if len(b) == 1 and isinstance(b[0], ast.Assign) and _src(b[0].targets[0]) == "ctx.tensor_shape_map" and _src(b[0].value) in SCOPES:
+            chain.append((c, "scope", SCOPES[_src(b[0].value)]))
+        elif len(b) == 1 and isinstance(b[0], ast.Raise) and _src(b[0].exc) == "_errors.DLTypeScopeProviderError(bad_scope_provider=scope_provider)":
+            chain.append((c, "raise", None))
+        else:
+            raise TErr("wrapper: provider branch `" + "; ".join(_src(s) for s in b)[:120] + "`")
+        if len(node.orelse) == 1 and isinstance(node.orelse[0], ast.If):
+            node = node.orelse[0]
+        elif not node.orelse:
+            break
+        else:
+            raise TErr("wrapper: the provider chain has a final else")
+    loop = rest[1]
+    if not (_src(loop.target) == "name" and _src(loop.iter) == "dltype_hints" and not loop.orelse):
+        raise TErr("wrapper: the loop is not `for name in dltype_hints`")
+    hint_step = wc.hint_block(loop.body, 0, "  ")
+    tr = rest[2]
+    if not (len(tr.handlers) == 1 and _src(tr.handlers[0].type) == "_errors.DLTypeError" and not tr.orelse and not tr.finalbody
+            and isinstance(tr.handlers[0].body[-1], ast.Raise) and tr.handlers[0].body[-1].exc is None
+            and all(isinstance(z, ast.Expr) and _src(z.value.func).endswith(".set_context") for z in tr.handlers[0].body[:-1])):
+        raise TErr("wrapper: the try block is not `except DLTypeError as e: e.set_context(...); raise`")
+    main = wc.main_block(list(tr.body) + [rest[3]], 0, "      ")
+
+    out = header
+    out += "import DltypeModel.Entry\nset_option linter.unusedVariables false\nnamespace Dltype.Gen\nopen Dltype\n\n"
+    out += WRAP_HEADER
+    out += "/-- one iteration of `for name in dltype_hints` in the wrapper: the entries it queues -/\n"
+    out += "def hintStep (hints : List (Name × HintAnns)) (args : List (Name × Value)) (name : Name) : Outcome (List Entry) :=\n  " + hint_step + "\n\n"
+    out += HINT_SKELETON
+    out += "/-- everything after the provider chain: the loop over the hints, the `try` block, `return retval` -/\n"
+    out += "def wrapperMain (acc : Acc) (d : FuncDecl) (args : List (Name × Value)) (body : BodyResult) (σ : Scope) : CallTrace :=\n"
+    out += "  let hints := allHints d\n  let registered : List Name := []\n  let calls : Nat := 0\n  let checked : Bool := false\n"
+    out += "  match hintLoop hints args hints with\n  | .ok queue =>\n    (" + main.replace("\n      ", "\n    ") + ")\n  | r => failAdd calls checked r\n\n"
+    out += "/-- one call through the wrapper of `dltyped` (after hints and signature were resolved and the arguments bound) -/\n"
+    out += "def wrapperCall (acc : Acc) (d : FuncDecl) (prov : Provider) (args : List (Name × Value)) (body : BodyResult) : CallTrace :=\n"
+    out += "  let calls : Nat := 0\n  let checked : Bool := false\n"
+    for c, kind, t in chain:
+        if kind == "scope":
+            out += f"  if {c} then wrapperMain acc d args body {t} else\n"
+        else:
+            out += f"  if {c} then {wc.end('.rejected .scopeProvider')} else\n"
+    out += "  wrapperMain acc d args body []\n\n"
+    out += "end Dltype.Gen\n"
+    return out
